@@ -4,6 +4,7 @@ import (
 	"fmt"
 	"go/token"
 	"go/types"
+	"sort"
 	"strings"
 
 	"golang.org/x/tools/go/ssa"
@@ -293,6 +294,15 @@ func (st *State) exec(fr *Frame, in ssa.Instruction) bool {
 		}
 		id := st.fresh("closure", SInt)
 		st.assume(fmt.Sprintf("(> %s 1000)", id))
+		// closure identities are ghost names: two creations on one path are told apart
+		var prev []string
+		for p := range st.funcs {
+			prev = append(prev, p)
+		}
+		sort.Strings(prev)
+		for _, p := range prev {
+			st.assume(not(eq(id, p)))
+		}
 		fv := &FuncV{Fn: fn, Bindings: bs}
 		st.funcs[id] = fv
 		fr.env[x] = Val{T: x.Type(), C: []string{id}, F: fv}
